@@ -57,6 +57,16 @@ def run(oc, tier, seed, model_available, escalate):
     wstat = {}
     for i in range(n_cases):
         algo, n, k0, k, percall, msg, mode, ec = one_case(rng, big=(i % 30 == 0))
+        if i % 12 == 11:
+            # the directed radius-check class below needs a geometry in which the libraries do return another codeword instead of giving
+            # up (as in the defect repaired by c2e423c: n = 255 with some forty parity symbols), a full-length random message, erasure mode
+            n = 255
+            k0 = k = rng.randint(200, 225)
+            percall = rng.random() < 0.3
+            if percall:
+                k0 = rng.choice([1, 100, 240])
+            msg = bytes(rng.randrange(1, 256) for _ in range(k))
+            mode, ec = "erasures", 0
         if i % 7 == 3:
             # a codec object constructed just now, right after a codec of the OTHER reedsolo field was constructed and used in the same process
             # (the field tables of reedsolo are module-wide): a freshly constructed object must work whatever was constructed before it
